@@ -4,12 +4,23 @@ A case is a program-as-data in one of four dialects (one interpreter, `run_case`
   'lit'     one (type, value) pair from vlib.hailgen: hl.literal(v, t), hl.literal(v), impute_type(v);
   'expr'    an SSA op list over the expression API (literals from hailgen values, arithmetic with numeric promotion,
             / % ** //, comparisons, collection methods, struct annotate/select/drop and nested updates, conditionals
-            with missing branches and hl.case, lambdas);
+            with missing branches and hl.case, lambdas, and the two mixed-member ops below);
   'table'   hl.utils.range_table(n) followed by steps (annotate, select, key_by, filter, transmute, drop,
             annotate_globals, group_by(..).aggregate(..), join, distinct) whose expressions are nested op lists over the
             current row / global fields;
   'matrix'  hl.utils.range_matrix_table(r, c) followed by steps (annotate_rows/cols/entries/globals, select_*,
             key_rows_by/key_cols_by, filter_*, row/col aggregations) and optionally rows()/cols()/entries() + table steps.
+
+Mixed numeric members (ops 'mix' and 'uni', class Mixer; available in every dialect's op lists, and alone as the outputs of
+the dedicated 'mix' shards): a Python list / set / dict (keys and values) / tuple / hl.Struct, nested, whose members are a
+MIX of hail expressions of every primitive numeric type (int32, int64, float32, float64, bool; fresh constants, row / global
+fields and lambda variables from the pool, conversions of pool expressions), Python scalars, numpy scalars and None, in
+every order, handed to hl.array / hl.set / hl.dict / hl.tuple / hl.struct / to_expr / hl.literal / a struct field /
+hl.sum, len, sorted / collection methods; and 2-3 such scalars handed to the binary operators (both operand orders, so the
+reflected methods run), comparisons, hl.if_else, coalesce, or_else, case, max, min (also if_else / coalesce / or_else over
+two containers).  Shapes the front end documents as refused are avoided by construction, so every member is numeric and
+ANY exception is a violation ("a well-typed numeric mix must unify"); each such expression without free variables is also
+judged on its own, whether or not it ends up in an output.
 
 Oracle: the IR the front end would send (finalize_randomness + PlainRenderer text) is read back (vlib.irtools) and typed
 bottom-up by an independent inferencer that applies the ENGINE rules (InferType.scala / TypeCheck.scala / BinaryOp.scala /
@@ -34,15 +45,30 @@ RULE = ('programs from a typed grammar over the public API in four dialects (lit
         'and counted. Oracle: independent bottom-up type inference over the rendered IR text with the engine typing rules, '
         'compared with expr.dtype, with the Python ir.typ of every node, with every Ref annotation, and with the '
         'Table/MatrixTable row/col/entry/globals/key dtypes after every step; literal values must typecheck against the '
-        'literal\'s dtype. Non-trivial: the program has a numeric promotion (an inserted to<Type> conversion or a / on '
-        'integers), a keyed table/matrix operation (key_by, group_by, join, key_rows_by, key_cols_by) or a nested struct '
-        'update (InsertFields inside InsertFields, or an override of an existing field); distinct by canonical program.')
+        'literal\'s dtype. Mixed numeric members: ops mix / uni build Python lists, sets, dicts (keys and values), tuples and '
+        'Structs, nested, whose members mix hail expressions of int32/int64/float32/float64/bool (constants, pool fields, '
+        'conversions), Python scalars, numpy scalars and None in every order, pass them to hl.array/set/dict/tuple/struct/'
+        'to_expr/literal/struct fields/sum/len/sorted/collection methods, and pass 2-3 such scalars to the binary operators '
+        '(both operand orders), comparisons, if_else, coalesce, or_else, case, max, min; refusals the front end documents are '
+        'avoided by construction, so any exception there is a violation, and the IR of every such expression must be well '
+        'typed node by node (every MakeArray argument has the declared element type, ...) with dtype equal to the root type. '
+        'Non-trivial: the program has a numeric promotion (an inserted to<Type> conversion or a / on '
+        'integers), a keyed table/matrix operation (key_by, group_by, join, key_rows_by, key_cols_by), a nested struct '
+        'update (InsertFields inside InsertFields, or an override of an existing field), or a container / unifier whose '
+        'members are expressions of at least two numeric types; distinct by canonical program.')
 ASSUMPTIONS = [
     'engine typing rules are transcribed by hand from the Scala sources for exactly the generated node set; node kinds '
     'and Apply functions without a rule are counted as outside_grammar',
     'the IR text is the one Backend._render_ir would produce except that PlainRenderer is used instead of CSERenderer '
     '(C35 relates the two)',
     'Apply nodes are typed by unifying the argument types with the registered signature (type variables, numeric bound)',
+    'mixed numeric members: three shapes are excluded by construction and counted (notes: numpy_scalars_replaced_by_guard, '
+    'numpy_bools_in_expression_free_containers_replaced, array_contains_items_given_the_element_type): numpy scalars in a '
+    'sub-container without embedded expression (known finding impute-not-accepting:numpy-scalar-widened; numpy.bool_ there is '
+    'refused by tbool even unwidened), and ArrayExpression.contains(item) with an item of another numeric type (the front end '
+    'neither checks nor coerces it; the emitted Apply contains has no engine signature)',
+    'the token of an I32/I64/F32/F64 node is not inspected: a Python bool promoted into a numeric container is rendered as '
+    '(F32 True) / (I64 True) and is typed like any other literal of that kind',
 ]
 TRUSTED = ['vlib/irtools.py reader + binding table', 'typing rules in checks/c36.py (from InferType/TypeCheck/BinaryOp/AggOp/'
            'TableIR/MatrixIR.scala and functions/*.scala)', 'vlib/hailgen.py generators', 'vlib/hailenv.py FakeBackend']
@@ -182,11 +208,15 @@ FUNCS = {
     'product': [((('array', N('T')),), V('T'))],
     'min': [((('array', N('T')),), V('T'))] + [((t, t), t) for t in NUMERIC],
     'max': [((('array', N('T')),), V('T'))] + [((t, t), t) for t in NUMERIC],
+    'min_ignore_missing': [((t, t), t) for t in NUMERIC],      # UtilFunctions.scala, per numeric type
+    'max_ignore_missing': [((t, t), t) for t in NUMERIC],
     'mean': [((('array', N('T')),), 'float64')],
     'dict': [((('array', ('tuple', (V('K'), V('V')))),), _DICT), ((('set', ('tuple', (V('K'), V('V')))),), _DICT)],
     'toSet': [((('array', V('T')),), ('set', V('T')))],
     'isEmpty': [((('array', V('T')),), 'bool'), ((('set', V('T')),), 'bool'), ((_DICT,), 'bool')],
-    'dictToArray': [((_DICT,), ('array', ('struct', (('key', V('K')), ('value', V('V'))))))],
+    # DictFunctions.scala registers dictToArray with a declared return type array<struct{key, value}>, but lookupIR ignores the
+    # declared return type of IR-implemented functions and the body builds MakeTuple.ordered(key, value): tuples it is
+    'dictToArray': [((_DICT,), ('array', ('tuple', (V('K'), V('V')))))],
 }
 
 
@@ -402,7 +432,10 @@ class Inferencer:
             return 'int32' if str(h[0]) == 'Compare' else 'bool'
         if k == 'MakeArray':
             if str(h[0]) == 'None':
-                raise NoRule('MakeArray:untyped')
+                # Parser.scala annotateTypes -> MakeArray.unify(ctx, args, null): the arguments must agree, the type is theirs
+                if not ct or any(x != ct[0] for x in ct):
+                    raise IllTyped(k, f'untyped MakeArray with argument types {[show(x) for x in ct]}')
+                return ('array', ct[0])
             t = irtools.parse_type(h[0])
             e = _elt(t, k, ('array',))
             if any(x != e for x in ct):
@@ -837,6 +870,9 @@ class ExprBuilder(c35.ApiBuilder):
         self.is_dict = lambda t: isinstance(t, hl.tdict)
         self.is_coll = lambda t: isinstance(t, (hl.tarray, hl.tset))
         self.crashes = []
+        self.classes = set()
+        self.v = None                               # Verdict of the running case (set by run_case)
+        self.guard_numpy = _known_numpy_width()     # the known numpy-scalar finding is excluded by construction
 
     def run(self, ops, pool, depth):
         self.st['max_depth'] = max(self.st['max_depth'], depth)
@@ -936,7 +972,462 @@ class ExprBuilder(c35.ApiBuilder):
             return hl.mean(P(op[1], self.is_numarr))
         if k == 'aggregate':
             raise _Skip('not in C36')
+        if k == 'mix':
+            return self.mix(op, pool)
+        if k == 'uni':
+            return self.uni(op, pool)
         return super().apply(op, pool, depth)
+
+    # ---- mixed numeric members (see Mixer)
+    def _numeric_only(self, what, mx, build):
+        """run a construction whose members are all numeric/boolean and which avoids every documented refusal by
+        construction: whatever it raises is a violation of CL_MIX"""
+        try:
+            return build()
+        except _Skip:
+            raise
+        except Exception as ex:
+            if isinstance(ex, hailenv.EngineNeeded):
+                self.classes.add('mix_needs_engine')
+                raise _Skip('engine')
+            if 'different source' in str(ex):      # fields of two tables in one expression: a documented user error
+                raise
+            if mx.at_risk_np and isinstance(ex, TypeError) and "'literal'" in str(ex):
+                self.crashes.append(('impute-not-accepting:numpy-scalar-widened', CL_LIT,
+                                     f'{what} raised {type(ex).__name__}: {str(ex)[:300]}'))
+            else:
+                self.crashes.append((f'numeric-mix-refused:{type(ex).__name__}:{_frame(ex)}', CL_MIX,
+                                     f'{what} raised {type(ex).__name__}: {str(ex)[:400]}'))
+            raise _Skip('refused')
+
+    def _built(self, e, mx, what, unifier):
+        mx.labels(self.classes, unifier)
+        STATS['mix_built'] += 1
+        STATS['numpy_scalars_replaced_by_guard'] += mx.replaced_np
+        STATS['numpy_bools_replaced'] += mx.replaced_np_bool
+        STATS['array_contains_items_retyped'] += mx.retyped_items
+        if mx.replaced_np:
+            self.classes.add('excluded_known_numpy_scalar')
+        if mx.replaced_np_bool:
+            self.classes.add('excluded_numpy_bool_in_literal')
+        if mx.retyped_items:
+            self.classes.add('excluded_array_contains_item_of_other_type')
+        x = e._ir
+        if self.v is not None and not (x.free_vars or x.free_agg_vars or x.free_scan_vars):
+            STATS['mix_checked_at_construction'] += 1
+            check_expr(e, Env({}, None, None), self.v, what)
+        return e
+
+    def mix(self, op, pool):
+        hl = self.hl
+        from hail.expr.expressions import to_expr
+        shape, leaves, ci, aux = op[1], op[2], int(op[3]), int(op[4])
+        kind = shape[0]
+        if kind not in MIX_CTORS:
+            raise _Skip('not a container shape')
+        mx = Mixer(self, pool, leaves)
+        ctors = MIX_CTORS[kind]
+        ctor = ctors[ci % len(ctors)]
+        v = mx.build(shape).value
+        # applicability, by construction
+        if ctor == 'literal' and mx.has_expr:
+            ctor = 'to_expr'
+        if ctor in _TWO_VALUES and not _single_unit(shape):
+            ctor = ctors[0]
+        if ctor == 'tuple_of' and any(x is None for x in v):
+            ctor = ctors[0]         # a tuple position is typed on its own: "cannot impute 1th element"
+        if ctor in ('sum', 'sorted', 'append', 'contains', 'set_add', 'set_contains') and shape[1] != ['n']:
+            ctor = ctors[0]
+        if ctor in ('dict_get', 'dict_index') and (shape[1] != ['n'] or (ctor == 'dict_get' and shape[2] != ['n'])):
+            ctor = ctors[0]
+        v2 = mx.build(shape).value if ctor in _TWO_VALUES else None
+        cond = c35._pick(pool, aux, self.is_bool, lambda: hl.bool(True)) if ctor == 'if_else' else None
+        fields = {f: v[f] for f in v} if kind == 'R' else None
+        nm = NAMES[aux % len(NAMES)]
+        what = f'{ctor} over {v!r}'[:500] + (f' and {v2!r}'[:300] if v2 is not None else '')
+        base = x = dflt = None
+        if ctor in ('append', 'contains', 'index'):
+            base = self._numeric_only(what, mx, lambda: hl.array(v))
+        elif ctor in ('set_add', 'set_contains'):
+            base = self._numeric_only(what, mx, lambda: hl.set(v))
+        elif ctor in ('dict_get', 'dict_index', 'dict_values', 'dict_keys'):
+            base = self._numeric_only(what, mx, lambda: hl.dict(v))
+        if ctor in ('append', 'contains'):
+            x = mx.leaf(('L',), exact=_tcode(hl, base.dtype.element_type)).value
+            if ctor == 'append':
+                mx.retyped_items = 0        # a documented requirement, not an exclusion
+        elif ctor in ('set_add', 'set_contains'):
+            x = mx.leaf(('S',), cap=_tcode(hl, base.dtype.element_type)).value
+        elif ctor in ('dict_get', 'dict_index'):
+            x = mx.leaf(('Dk',), cap=_tcode(hl, base.dtype.key_type)).value
+            if ctor == 'dict_get' and aux % 2:
+                dflt = mx.leaf(('Dv',), cap=_tcode(hl, base.dtype.value_type)).value
+        if x is not None:
+            what += f' with {x!r}' + (f', {dflt!r}' if dflt is not None else '')
+
+        def go():
+            if ctor in ('array', 'array_of'):
+                return hl.array(v)
+            if ctor in ('set', 'set_of'):
+                return hl.set(v)
+            if ctor == 'dict':
+                return hl.dict(v)
+            if ctor in ('tuple', 'tuple_of'):
+                return hl.tuple(v)
+            if ctor == 'struct':
+                return hl.struct(**fields)
+            if ctor == 'to_expr':
+                return to_expr(v)
+            if ctor == 'literal':
+                return hl.literal(v)
+            if ctor == 'struct_field':
+                return hl.struct(**{nm: v})
+            if ctor == 'sum':
+                return hl.sum(v)
+            if ctor == 'len':
+                return hl.len(v)
+            if ctor == 'sorted':
+                return hl.sorted(v)
+            if ctor == 'index':
+                return base[aux % len(v)]
+            if ctor == 'append':
+                return base.append(x)
+            if ctor in ('contains', 'set_contains'):
+                return base.contains(x)
+            if ctor == 'set_add':
+                return base.add(x)
+            if ctor == 'dict_get':
+                return base.get(x) if dflt is None else base.get(x, dflt)
+            if ctor == 'dict_index':
+                return base[x]
+            if ctor == 'dict_values':
+                return base.values()
+            if ctor == 'dict_keys':
+                return base.keys()
+            if ctor == 'tuple_index':
+                return hl.tuple(v)[aux % len(v)]
+            if ctor == 'if_else':
+                return hl.if_else(cond, v, v2)
+            if ctor == 'coalesce':
+                return hl.coalesce(v, v2)
+            if ctor == 'or_else':
+                return hl.or_else(v, v2)
+            if ctor == 'annotate':
+                s = c35._pick(pool, aux, self.is_struct, lambda: hl.struct(a=hl.int32(1), b=hl.float32(2)))
+                return s.annotate(**fields)
+            if ctor == 'field_of':
+                return hl.struct(**fields)[list(fields)[aux % len(fields)]]
+            raise _Skip(f'unknown constructor {ctor}')
+        e = self._numeric_only(what, mx, go)
+        if ctor == 'to_expr' and self.v is not None:
+            from hail.expr.expressions import impute_type
+            it = self._numeric_only('impute_type of ' + what, mx, lambda: impute_type(v))
+            if it != e.dtype:
+                self.v.fail('mix-imputed-dtype:' + kind, CL_LIT, f'{what}: to_expr(v).dtype is {e.dtype}, impute_type(v) is {it}')
+        self.classes.add('mix_ctor_' + ctor)
+        self.classes.add('mix_top_' + {'L': 'list', 'S': 'set', 'D': 'dict', 'T': 'tuple', 'R': 'struct'}[kind])
+        return self._built(e, mx, what, False)
+
+    def uni(self, op, pool):
+        hl = self.hl
+        fn = op[1] if op[1] in UNI_FNS else '+'
+        aux = int(op[3])
+        mx = Mixer(self, pool, op[2])
+        n = 2 if fn in _BINOPS or fn in ('if_else', 'or_else') else 2 + aux % 2
+        args = []
+        for j in range(n):
+            # an operator between two Python / numpy scalars is not a hail expression: the second operand is then one
+            args.append(mx.leaf(('U',), want_expr=fn in _BINOPS and j == 1 and not args[0].has_expr))
+        a = [m.value for m in args]
+        cond = c35._pick(pool, aux, self.is_bool, lambda: hl.bool(False)) if fn in ('if_else', 'case') else None
+
+        def go():
+            if fn in _BINOPS:
+                return _BINOPS[fn](a[0], a[1])
+            if fn == 'if_else':
+                return hl.if_else(cond, a[0], a[1])
+            if fn == 'coalesce':
+                return hl.coalesce(*a)
+            if fn == 'or_else':
+                return hl.or_else(a[0], a[1])
+            if fn == 'case':
+                c = hl.case().when(cond, a[0])
+                for y in a[1:-1]:
+                    c = c.when(~cond, y)
+                return c.default(a[-1])
+            if fn == 'max':
+                return hl.max(*a)
+            if fn == 'min':
+                return hl.min(*a)
+            raise _Skip(f'unknown unifier {fn}')
+        what = f'{fn} over {a!r}'[:500]
+        e = self._numeric_only(what, mx, go)
+        self.classes.add('unifier_' + {'+': 'add', '-': 'sub', '*': 'mul', '/': 'truediv', '//': 'floordiv', '%': 'mod',
+                                       '**': 'pow', '==': 'eq', '!=': 'ne', '<': 'lt', '<=': 'le', '>': 'gt',
+                                       '>=': 'ge'}.get(fn, fn))
+        if fn in _BINOPS and not args[0].has_expr:
+            self.classes.add('unifier_reflected_operator')
+            if args[0].np_leaf:
+                self.classes.add('unifier_numpy_scalar_left_operand')
+        return self._built(e, mx, what, True)
+
+
+# =================================================================================================================
+# mixed numeric members: Python containers handed to the front end, and unifiers that coerce their arguments
+# =================================================================================================================
+#
+# A 'mix' op is ['mix', shape, leaves, ctor, aux]:
+#   shape   ['n']                         a numeric/boolean member (leaf)
+#           ['L', shape, k]               Python list of k members of one shape (a homogeneous group)
+#           ['S', shape, k]               Python set (members: leaves or tuples of leaves)
+#           ['D', kshape, vshape, k]      Python dict (keys form one group, values another)
+#           ['T', [shape, ...]]           Python tuple (each position typed on its own)
+#           ['R', [shape, ...], salt]     hl.Struct / keyword arguments of hl.struct (each field typed on its own)
+#   leaves  [[tcode, how, val], ...] consumed cyclically in construction order; tcode in TCODES,
+#           how: 'e' fresh hail expression of that type, 'p' an expression of that type from the pool (row / global fields,
+#           lambda variables, earlier results), 'c' a pool expression of ANOTHER numeric type converted with
+#           hl.int32/int64/float32/float64, 'py' Python scalar, 'np' numpy scalar, 'none' None (only next to a typed sibling)
+#   ctor    index into MIX_CTORS[top shape kind] (hl.array / hl.set / hl.dict / hl.tuple / hl.struct / to_expr / hl.literal /
+#           a struct field / collection functions and methods that coerce a Python argument / if_else, coalesce, or_else
+#           over two values of the same shape)
+# A 'uni' op is ['uni', fn, leaves, aux]: fn in UNI_FNS applied to 2-3 leaves (binary operators in both operand orders,
+# comparisons, hl.if_else / coalesce / or_else / case / max / min).
+#
+# Everything the front end documents as refused is avoided BY CONSTRUCTION (the interpreter re-maps the drawn choice, it
+# never discards the case), so that what is built has only numeric/boolean members and ANY exception violates CL_MIX:
+#   * None only after a typed sibling in the same list / set / dict values ("cannot impute" otherwise);
+#   * leaves under a tuple that sits inside a list / set / dict all take the type drawn for the first sibling (tuple
+#     types are not promoted: "Hail does not support heterogeneous arrays");
+#   * hl.literal only around values without embedded expressions (it evaluates them on the engine and refuses promotion);
+#   * an operator always has a hail expression among its two operands;
+#   * if_else / coalesce / or_else over two containers only for list/set nestings of leaves (one unification unit: one
+#     side's type is then always coercible to the other's; unify_exprs does not invent a third type); hl.case only over
+#     scalars ("'then' expressions must have same type" for anything else);
+#   * set.add / set.contains / dict.get / dict[...] receive an item whose type coerces to the element / key / value type,
+#     array.append an item of exactly the element type ("expects 'item' to be the same type as its elements").
+# Two shapes are excluded because the unchanged front end mishandles them (counted, reported, see notes):
+#   * a numpy scalar inside a sub-container without any embedded expression reaches hl.literal's typecheck against the
+#     unified type: known finding impute-not-accepting:numpy-scalar-widened (guarded like the 'lit' dialect); numpy.bool_
+#     there is refused even at its own type (tbool accepts only Python bool) and is always replaced by a Python bool;
+#   * ArrayExpression.contains(item) neither checks nor coerces `item`, so an item of another numeric type yields
+#     (Apply contains () Boolean <array<T>> <U>), which no registered signature accepts: the item takes the element type.
+
+TCODES = ('i32', 'i64', 'f32', 'f64', 'b')
+_RANK = {'b': 0, 'i32': 1, 'i64': 2, 'f32': 3, 'f64': 4}
+_GROUP_MARK = {'L': 'list', 'S': 'set', 'Dk': 'dict_keys', 'Dv': 'dict_values'}
+CL_MIX = ('a Python container or argument list whose members are all numeric or boolean (hail expressions of any primitive '
+          'numeric type, Python scalars, numpy scalars) is accepted and unified by the front end')
+MIX_CTORS = {
+    'L': ['array', 'to_expr', 'struct_field', 'set_of', 'tuple_of', 'array', 'sum', 'len', 'sorted', 'index', 'append',
+          'contains', 'if_else', 'coalesce', 'or_else', 'literal', 'to_expr', 'if_else', 'array'],
+    'S': ['set', 'to_expr', 'array_of', 'struct_field', 'len', 'set_add', 'set_contains', 'if_else', 'coalesce',
+          'literal', 'set', 'or_else'],
+    'D': ['dict', 'to_expr', 'struct_field', 'dict_get', 'dict_index', 'dict_values', 'dict_keys', 'literal', 'len', 'dict'],
+    'T': ['tuple', 'to_expr', 'struct_field', 'tuple_index', 'literal', 'tuple'],
+    'R': ['struct', 'to_expr', 'struct_field', 'annotate', 'literal', 'struct', 'field_of'],
+}
+_TWO_VALUES = ('if_else', 'coalesce', 'or_else')
+UNI_FNS = ['+', '-', '*', '/', '//', '%', '**', '==', '!=', '<', '<=', '>', '>=', 'if_else', 'coalesce', 'or_else', 'case',
+           'max', 'min']
+_BINOPS = {'+': lambda a, b: a + b, '-': lambda a, b: a - b, '*': lambda a, b: a * b, '/': lambda a, b: a / b,
+           '//': lambda a, b: a // b, '%': lambda a, b: a % b, '**': lambda a, b: a ** b, '==': lambda a, b: a == b,
+           '!=': lambda a, b: a != b, '<': lambda a, b: a < b, '<=': lambda a, b: a <= b, '>': lambda a, b: a > b,
+           '>=': lambda a, b: a >= b}
+
+
+def _single_unit(sh):
+    """lists / sets of (lists / sets of ...) leaves: all leaves unify into ONE type, so two such values are coercible"""
+    return sh[0] == 'n' or (sh[0] in ('L', 'S') and _single_unit(sh[1]))
+
+
+def _tcode(hl, t):
+    return {hl.tint32: 'i32', hl.tint64: 'i64', hl.tfloat32: 'f32', hl.tfloat64: 'f64', hl.tbool: 'b'}.get(t)
+
+
+class _OrderedSet(set):
+    """a Python set whose iteration order is the insertion order: hail expressions hash by address, so a plain set of them
+    would be walked in an order that differs from one execution of the same case to the next"""
+
+    def __init__(self, items):
+        super().__init__()
+        self._order = []
+        for x in items:
+            n = len(self)
+            self.add(x)
+            if len(self) > n:
+                self._order.append(x)
+
+    def __iter__(self):
+        return iter(self._order)
+
+
+class _Member:
+    __slots__ = ('value', 'has_expr', 'np_leaf', 'pinned', 'unit', 'idx')
+
+    def __init__(self, value, has_expr, np_leaf=False, pinned=False, unit=None, idx=None):
+        self.value, self.has_expr, self.np_leaf, self.pinned, self.unit, self.idx = value, has_expr, np_leaf, pinned, unit, idx
+
+
+class Mixer:
+    """builds the Python value of a mix / uni op and keeps the books that the class labels and the guards need"""
+
+    def __init__(self, b, pool, leaves):
+        self.b, self.hl, self.pool = b, b.hl, pool
+        self.leaves = [x for x in (leaves or []) if isinstance(x, (list, tuple)) and len(x) == 3] or [['i32', 'e', 1]]
+        self.pos = 0
+        self.units = {}          # unification unit (path without member indices) -> [(tcode, how)] in construction order
+        self.pins = {}           # unit -> tcode, for leaves under a tuple inside a group (tuple types must be identical)
+        self.at_risk_np = 0      # numpy scalars inside an expression-free sub-container (the known finding's trigger)
+        self.replaced_np = 0
+        self.replaced_np_bool = 0
+        self.retyped_items = 0
+        self.has_expr = False
+
+    # ---- leaves
+    def _fresh(self, tc, val):
+        hl = self.hl
+        return {'i32': lambda: hl.int32(val), 'i64': lambda: hl.int64(3 * val), 'f32': lambda: hl.float32(val / 2),
+                'f64': lambda: hl.float64(val / 4), 'b': lambda: hl.bool(val % 2 == 1)}[tc]()
+
+    def leaf(self, unit, allow_none=False, pinned=False, want_expr=False, exact=None, cap=None):
+        """-> _Member.  exact: the member must have exactly this type; cap: a type that coerces to this one"""
+        hl = self.hl
+        import numpy as np
+        tc, how, val = self.leaves[self.pos % len(self.leaves)]
+        self.pos += 1
+        tc = tc if tc in TCODES else 'i32'
+        val = int(val)
+        if pinned:
+            tc = self.pins.setdefault(unit, tc)
+        if exact is not None and tc != exact:
+            tc = exact
+            self.retyped_items += 1
+        if cap is not None and _RANK[tc] > _RANK[cap]:
+            tc = cap
+        if how == 'none' and not (allow_none and not pinned and not want_expr and exact is None and cap is None):
+            how = 'py'
+        if want_expr and how in ('py', 'np'):
+            how = 'e'
+        if how == 'py' and tc == 'f32':
+            how = 'e'          # no Python scalar imputes float32
+        ht = {'i32': hl.tint32, 'i64': hl.tint64, 'f32': hl.tfloat32, 'f64': hl.tfloat64, 'b': hl.tbool}[tc]
+        rec = self.units.setdefault(unit, [])
+        if how == 'none':
+            rec.append((None, 'none'))
+            return _Member(None, False, unit=unit, idx=len(rec) - 1)
+        if how == 'py':
+            x = {'i32': val, 'i64': 2 ** 40 + val, 'f64': val / 4, 'b': val % 2 == 1}[tc]
+            rec.append((tc, 'py'))
+            return _Member(x, False, unit=unit, idx=len(rec) - 1)
+        if how == 'np':
+            x = {'i32': np.int32, 'i64': np.int64, 'f32': np.float32, 'f64': np.float64, 'b': np.bool_}[tc](
+                {'i32': val, 'i64': 3 * val, 'f32': val / 2, 'f64': val / 4, 'b': val % 2 == 1}[tc])
+            rec.append((tc, 'np'))
+            return _Member(x, False, True, pinned or exact is not None, unit, len(rec) - 1)
+        if how == 'p':
+            e = c35._pick(self.pool, val, self.b.same(ht), lambda: self._fresh(tc, val))
+        elif how == 'c':
+            src = c35._pick(self.pool, val, lambda t: t in (hl.tint32, hl.tint64, hl.tfloat32, hl.tfloat64) and t != ht,
+                            lambda: self._fresh('i64' if tc == 'i32' else 'i32', val))
+            e = (src > 0) if tc == 'b' else {'i32': hl.int32, 'i64': hl.int64, 'f32': hl.float32, 'f64': hl.float64}[tc](src)
+        else:
+            e = self._fresh(tc, val)
+        rec.append((tc, 'expr'))
+        self.has_expr = True
+        return _Member(e, True, unit=unit, idx=len(rec) - 1)
+
+    # ---- containers
+    def _settle(self, members):
+        """members of ONE Python container (or the keys / the values of a dict).  A container without any embedded
+        expression reaches hl.literal whole, and the (unified) leaf type typechecks every numpy scalar in it."""
+        if any(m.has_expr for m in members):
+            return
+        for m in members:
+            if not m.np_leaf:
+                continue
+            tc = self.units[m.unit][m.idx][0]
+            if tc == 'b':                     # tbool refuses numpy.bool_ even though impute_type maps it to bool
+                m.value, m.np_leaf = bool(m.value), False
+                self.units[m.unit][m.idx] = ('b', 'py')
+                self.replaced_np_bool += 1
+            elif m.pinned:                    # never widened: the tuple position has exactly this type
+                continue
+            elif self.b.guard_numpy:
+                m.value, m.np_leaf = m.value.item(), False
+                self.units[m.unit][m.idx] = ({'f32': 'f64', 'i64': 'i32'}.get(tc, tc), 'py')
+                self.replaced_np += 1
+            else:
+                self.at_risk_np += 1
+
+    def build(self, sh, path=(), in_group=False, under_tuple=False, allow_none=False):
+        k = sh[0]
+        if k == 'n':
+            return self.leaf(path, allow_none=allow_none, pinned=in_group and under_tuple)
+        if k in ('L', 'S'):
+            n = max(1, int(sh[2]))
+            ms = [self.build(sh[1], path + (k,), True, under_tuple, allow_none=(j > 0)) for j in range(n)]
+            self._settle(ms)
+            vals = [m.value for m in ms]
+            return _Member(vals if k == 'L' else _OrderedSet(vals), any(m.has_expr for m in ms))
+        if k == 'D':
+            n = max(1, int(sh[3]))
+            ks = [self.build(sh[1], path + ('Dk',), True, under_tuple) for _ in range(n)]
+            vs = [self.build(sh[2], path + ('Dv',), True, under_tuple, allow_none=(j > 0)) for j in range(n)]
+            self._settle(ks)
+            self._settle(vs)
+            return _Member({a.value: c.value for a, c in zip(ks, vs)}, any(m.has_expr for m in ks + vs))
+        if k == 'T':
+            ms = [self.build(s2, path + ('T', j), in_group, True) for j, s2 in enumerate(sh[1])]
+            self._settle(ms)
+            return _Member(tuple(m.value for m in ms), any(m.has_expr for m in ms))
+        if k == 'R':
+            nm = _names(int(sh[2]), len(sh[1]))
+            ms = [self.build(s2, path + ('R', nm[j]), in_group, under_tuple) for j, s2 in enumerate(sh[1])]
+            self._settle(ms)
+            return _Member(self.hl.Struct(**{nm[j]: m.value for j, m in enumerate(ms)}), any(m.has_expr for m in ms))
+        raise _Skip(f'unknown shape {k}')
+
+    # ---- class labels
+    def labels(self, out, unifier=False):
+        pre = 'unifier_' if unifier else ''
+        for unit, ms in self.units.items():
+            real = [(t, h) for t, h in ms if t is not None]
+            if not real or len(ms) < 2:
+                continue
+            ex = [t for t, h in real if h == 'expr']
+            types = {t for t, _ in real}
+            join = max(types, key=_RANK.get)
+            marks = [_GROUP_MARK[x] for x in unit if x in _GROUP_MARK]
+            if len(set(ex)) >= 2:
+                out.add(pre + ('mixed_numeric_exprs' if unifier else 'mixed_numeric_exprs_in_container'))
+                if marks:
+                    out.add(f'mixed_exprs_in_{marks[-1]}')
+                if len(marks) >= 2:
+                    out.add('mixed_exprs_across_nested_containers')
+                if 'R' in unit:
+                    out.add('mixed_exprs_under_struct_field')
+                if 'T' in unit:
+                    out.add('mixed_exprs_under_tuple')
+                out.add(f'{pre}mixed_exprs_join_{join}')
+            ints = [j for j, (t, h) in enumerate(real) if h == 'expr' and t in ('i32', 'i64', 'b')]
+            f32s = [j for j, (t, h) in enumerate(real) if h == 'expr' and t == 'f32']
+            if ints and f32s and join == 'f32':
+                out.add(pre + 'float32_expr_with_int_expr')
+                out.add(pre + ('float32_expr_before_int_expr' if f32s[0] < ints[0] else 'int_expr_before_float32_expr'))
+            if 'i32' in ex and 'i64' in ex:
+                out.add(pre + 'int32_expr_with_int64_expr')
+            if 'f32' in ex and 'f64' in ex:
+                out.add(pre + 'float32_expr_with_float64_expr')
+            if 'b' in ex and len(set(ex)) >= 2:
+                out.add(pre + 'bool_expr_with_numeric_expr')
+            if ex and any(h == 'py' for _, h in real):
+                out.add(pre + 'expr_with_python_scalar')
+            if ex and any(h == 'np' for _, h in real):
+                out.add(pre + 'expr_with_numpy_scalar')
+            if not ex and len(types) >= 2:
+                out.add(pre + 'mixed_python_numpy_scalars_only')
+            if any(t is None for t, _ in ms):
+                out.add('missing_member_in_mix')
 
 
 class Program:
@@ -993,6 +1484,7 @@ def run_case(case):
     p = Program(case)
     p.b = ExprBuilder()
     v = p.v
+    p.b.v = v
     v.classes.add('kind_' + kind)
     keyed = False
     if kind == 'expr':
@@ -1073,19 +1565,22 @@ def run_case(case):
         raise ValueError(f'unknown case kind {kind!r}')
     for f in p.b.crashes:
         v.fail(*f)
-    classes = set(v.classes)
+    classes = set(v.classes) | p.b.classes
     if keyed:
         classes.add('keyed_operation')
     if any(c.startswith('outside_grammar') for c in classes):
         classes.add('outside_grammar')
-    nontrivial = bool(classes & {'promotion', 'division', 'keyed_operation', 'nested_struct_update'})
+    nontrivial = bool(classes & {'promotion', 'division', 'keyed_operation', 'nested_struct_update',
+                                 'mixed_numeric_exprs_in_container', 'unifier_mixed_numeric_exprs'})
     STATS['skipped_ops'] += p.skipped + p.b.st['skipped']
     STATS['ops'] += p.b.st['ops'] + p.steps_done
     STATS['rejected'] += p.b.st['rejected']
     return nontrivial, sorted(classes), v.fails
 
 
-STATS = {'skipped_ops': 0, 'ops': 0, 'rejected': 0, 'nodes_compared': 0, 'refs_compared': 0}
+STATS = {'skipped_ops': 0, 'ops': 0, 'rejected': 0, 'nodes_compared': 0, 'refs_compared': 0, 'mix_built': 0,
+         'mix_checked_at_construction': 0, 'numpy_scalars_replaced_by_guard': 0, 'numpy_bools_replaced': 0,
+         'array_contains_items_retyped': 0}
 
 
 def _base_pool(hl):
@@ -1386,6 +1881,27 @@ def _strategies():
     salt = st.integers(0, 7)
     mask = st.integers(0, 15)
 
+    # ---- mixed numeric members (Mixer): shapes, leaves, constructors
+    leaf = st.tuples(st.sampled_from(TCODES),
+                     st.sampled_from(['e', 'e', 'e', 'e', 'p', 'p', 'c', 'py', 'py', 'np', 'none']), small)
+    leaves = st.lists(leaf, min_size=2, max_size=10)
+    num = st.just(['n'])
+    hashable = st.one_of(num, num, num, st.integers(1, 3).map(lambda n: ['T', [['n']] * n]))
+    cnt = st.sampled_from([1, 2, 2, 2, 3, 3, 4])
+
+    def containers(inner):
+        return st.one_of(
+            st.tuples(st.just('L'), inner, cnt), st.tuples(st.just('L'), inner, cnt), st.tuples(st.just('S'), hashable, cnt),
+            st.tuples(st.just('D'), hashable, inner, st.integers(1, 3)),
+            st.tuples(st.just('T'), st.lists(inner, min_size=1, max_size=3)),
+            st.tuples(st.just('R'), st.lists(inner, min_size=1, max_size=3), salt))
+    shape = containers(st.recursive(num, containers, max_leaves=4))
+    aux = st.integers(0, 11)
+    mixed = st.one_of(
+        st.tuples(st.just('mix'), shape, leaves, st.integers(0, 19), aux),
+        st.tuples(st.just('mix'), st.tuples(st.sampled_from(['L', 'L', 'S']), num, cnt), leaves, st.integers(0, 19), aux),
+        st.tuples(st.just('uni'), st.sampled_from(UNI_FNS), leaves, aux))
+
     def ops(depth, lo, hi):
         body = st.deferred(lambda: st.fixed_dictionaries({'ops': ops(depth + 1, 1, 4), 'ret': st.sampled_from([0, 0, 1, 2])}))
         numeric = st.one_of(
@@ -1420,7 +1936,7 @@ def _strategies():
             st.tuples(st.just('not'), idx), st.tuples(st.just('and'), idx, idx), st.tuples(st.just('or'), idx, idx),
             st.tuples(st.just('concat'), idx, idx), st.tuples(st.just('tostr'), idx),
         )
-        alts = [numeric, numeric, coll, structs, cond]
+        alts = [numeric, numeric, coll, structs, cond, mixed]
         if depth < 2:
             alts.append(st.one_of(
                 st.tuples(st.just('map'), idx, body), st.tuples(st.just('filter'), idx, body),
@@ -1470,7 +1986,22 @@ def _strategies():
         lambda r, c, ms, conv, ts: {'kind': 'matrix', 'r': r, 'c': c, 'steps': ms + ([conv] + ts if conv else [])},
         st.integers(0, 4), st.integers(0, 3), st.lists(mstep, min_size=1, max_size=5), st.one_of(st.none(), to_table),
         st.lists(tstep, max_size=2))
-    return dict(lit=lit_case, expr=expr_case, table=table_case, matrix=matrix_case)
+    # the 'mix' shards: the same two dialects with the mixed-member ops last, so that they ARE the outputs
+    mixops = st.lists(mixed, min_size=1, max_size=3)
+    mix_expr = st.builds(lambda pre, ms: {'kind': 'expr', 'lits': [], 'ops': pre + ms, 'roots': list(range(len(ms)))},
+                         ops(1, 0, 4), mixops)
+    mix_table = st.builds(
+        lambda n, pre, ms, sa, more: {'kind': 'table', 'n': n,
+                                      'steps': [['annotate', {'ops': pre + ms}, len(ms), sa]] + more},
+        st.integers(0, 6), ops(1, 0, 3), mixops, st.sampled_from([0, 1, 3, 4, 6]),      # salts that never name the key 'idx'
+        st.lists(tstep, max_size=2))
+    mix_matrix = st.builds(
+        lambda r, c, which, pre, ms, sa: {'kind': 'matrix', 'r': r, 'c': c,
+                                          'steps': [[which, {'ops': pre + ms}, len(ms), sa]]},
+        st.integers(0, 4), st.integers(0, 3), st.sampled_from(['annotate_entries', 'annotate_rows', 'annotate_cols']),
+        ops(1, 0, 3), mixops, salt)
+    mix_case = st.one_of(mix_expr, mix_expr, mix_table, mix_table, mix_matrix)
+    return dict(lit=lit_case, expr=expr_case, table=table_case, matrix=matrix_case, mix=mix_case)
 
 
 def _jsonable(case):
@@ -1484,6 +2015,14 @@ SEED_CASES = [
     {'kind': 'expr', 'lits': [], 'roots': [0, 1],
      'ops': [['lit', 'i64', 3], ['div', '/', 0, 1], ['lit', 'i32', 2], ['div', '/', 0, 0], ['struct', [0, 1]],
              ['annotate', 0, [1, 2], 0], ['nest', 0, 0, 0, 0]]},
+    # mixed numeric members: nested list of int64 expr / numpy int32 / Python float / None under a struct field next to a set
+    # of bool and int32 members, a dict with mixed keys and values, and a reflected operator
+    {'kind': 'expr', 'lits': [], 'roots': [0, 1, 2],
+     'ops': [['mix', ['R', [['L', ['L', ['n'], 2], 2], ['S', ['n'], 3]], 0],
+              [['i64', 'e', 2], ['i32', 'np', 1], ['f64', 'py', 3], ['i32', 'none', 0], ['b', 'e', 1], ['i32', 'p', 0],
+               ['i32', 'py', 5]], 0, 0],
+             ['mix', ['D', ['n'], ['n'], 2], [['i32', 'e', 1], ['f64', 'e', 2], ['i64', 'c', 0], ['b', 'py', 1]], 0, 0],
+             ['uni', '-', [['f64', 'py', 3], ['i64', 'e', 2]], 0]]},
     {'kind': 'table', 'n': 4, 'steps': [['annotate', {'ops': [['div', '/', 0, 0], ['bin', '+', 0, 1]]}, 2, 0],
                                         ['key_by', 2, 0], ['annotate', {'ops': [['lit', 'f64', 3]]}, 1, 0],
                                         ['group_agg', 2, {'ops': [['bin', '*', 0, 0]]}, 7]]},
@@ -1500,6 +2039,7 @@ def plan(tier):
     specs += [dict(kind='expr', n=300 if q else 3000) for _ in range(5)]
     specs += [dict(kind='table', n=200 if q else 2000) for _ in range(5)]
     specs += [dict(kind='matrix', n=160 if q else 1500) for _ in range(3)]
+    specs += [dict(kind='mix', n=300 if q else 3000) for _ in range(2)]
     return specs
 
 
@@ -1518,7 +2058,12 @@ def run_shard(spec, seed, tier):
     search(res, PROPERTY, strat, lambda c: run_case(_jsonable(c)), spec['n'], seed, shrink=True, to_json=_jsonable)
     res.skipped_ops = STATS['skipped_ops']
     res.notes.update({'ops_applied': STATS['ops'], 'ops_rejected_by_frontend': STATS['rejected'],
-                      'ir_nodes_compared': STATS['nodes_compared'], 'refs_compared': STATS['refs_compared']})
+                      'ir_nodes_compared': STATS['nodes_compared'], 'refs_compared': STATS['refs_compared'],
+                      'mixed_numeric_constructions': STATS['mix_built'],
+                      'mixed_numeric_constructions_checked_on_their_own': STATS['mix_checked_at_construction'],
+                      'numpy_scalars_replaced_by_guard': STATS['numpy_scalars_replaced_by_guard'],
+                      'numpy_bools_in_expression_free_containers_replaced': STATS['numpy_bools_replaced'],
+                      'array_contains_items_given_the_element_type': STATS['array_contains_items_retyped']})
     return res
 
 
